@@ -51,6 +51,9 @@ Extracted (every other shape fails closed):
     and whether the class has a __deepcopy__ of its own (without one, deep copies go through the same hooks)
     __reduce__ / __reduce_ex__ / __getnewargs__ / __getnewargs_ex__ / copyreg / any other statement shape: fail closed
                                                                                               -> src_pickle_hooks
+  * ModelGroup.__iter__: the models of self.models whose `enabled` is set, in order (loop + if + yield, `yield from` /
+    `return` of the filtered generator); ModelGroup.run: `for model in self` calling `model(detector)` once
+                                                                                              -> src_group_runs_enabled_only
 """
 from __future__ import annotations
 
@@ -793,12 +796,60 @@ def pickle_rows(repo: Path):
     return rows
 
 
+GROUP = "pyxel/pipelines/model_group.py"
+
+
+def group_runs_enabled_row(tree) -> bool:
+    """ModelGroup.__iter__ yields the models whose `enabled` is set, in the order of self.models, and ModelGroup.run
+    executes what iterating over the group yields (`for model in self: ... model(detector)`)"""
+    it = find_func(tree, "__iter__", "ModelGroup")
+    body = body_no_doc(it)
+    ok = False
+
+    def filtered(gen, elt) -> bool:
+        return (len(gen) == 1 and u(gen[0].iter) == "self.models" and isinstance(gen[0].target, ast.Name)
+                and [u(c) for c in gen[0].ifs] == [f"{gen[0].target.id}.enabled"] and u(elt) == gen[0].target.id)
+
+    if len(body) == 1 and isinstance(body[0], ast.For) and u(body[0].iter) == "self.models" and not body[0].orelse \
+            and isinstance(body[0].target, ast.Name):
+        v = body[0].target.id
+        b = body[0].body
+        if (len(b) == 1 and isinstance(b[0], ast.If) and u(b[0].test) == f"{v}.enabled" and not b[0].orelse
+                and len(b[0].body) == 1 and u(b[0].body[0]) == f"yield {v}"):
+            ok = True
+    elif len(body) == 1 and isinstance(body[0], ast.Expr) and isinstance(body[0].value, ast.YieldFrom):
+        g = body[0].value.value
+        ok = isinstance(g, (ast.GeneratorExp, ast.ListComp)) and filtered(g.generators, g.elt)
+    elif len(body) == 1 and isinstance(body[0], ast.Return) and body[0].value is not None:
+        g = body[0].value
+        if isinstance(g, ast.Call) and u(g.func) == "iter" and len(g.args) == 1:
+            g = g.args[0]
+        ok = isinstance(g, (ast.GeneratorExp, ast.ListComp)) and filtered(g.generators, g.elt)
+    if not ok:
+        fail(it, "ModelGroup.__iter__ must yield the models of self.models whose `enabled` is set, in order")
+    run = find_func(tree, "run", "ModelGroup")
+    loops = [n for n in ast.walk(run) if isinstance(n, ast.For) and u(n.iter) == "self"]
+    if len(loops) != 1 or not isinstance(loops[0].target, ast.Name):
+        fail(run, "ModelGroup.run must execute `for model in self`")
+    v = loops[0].target.id
+    execs = [n for n in ast.walk(loops[0]) if isinstance(n, ast.Call) and u(n.func) == v
+             and [u(a) for a in n.args] + [u(k.value) for k in n.keywords] == ["detector"]]
+    if len(execs) != 1:
+        fail(loops[0], "ModelGroup.run must call every model it iterates over exactly once with the detector")
+    if any(isinstance(n, ast.For) and n is not loops[0] and u(n.iter) in ("self.models", "self") for n in ast.walk(run)):
+        fail(run, "a second loop over the models in ModelGroup.run")
+    return True
+
+
 def render_hooks(rows) -> str:
     body = ";\n  ".join('mkHook "%s" %s [%s]' % (c, "true" if dc else "false", "; ".join('("%s", %s)' % (a, r) for a, r in attrs))
                          for c, dc, attrs in rows)
     return ("\n(* pickle hooks (__getstate__ / __setstate__) of the classes whose objects travel to the workers of a process\n"
             "   pool: for every attribute __init__ sets, how it comes back from a round trip *)\n"
-            "Definition src_pickle_hooks : list hook_row := [\n  " + body + "\n]%string.\n")
+            "Definition src_pickle_hooks : list hook_row := [\n  " + body + "\n]%string.\n"
+            "\n(* ModelGroup.__iter__ yields the models whose `enabled` is set, in the order of self.models, and ModelGroup.run\n"
+            "   calls exactly those (`executed` of Model/Parallel.v) *)\n"
+            "Definition src_group_runs_enabled_only : bool := true.\n")
 
 
 TEMPLATE = """From Coq Require Import String.
@@ -848,6 +899,7 @@ def rows(repo: Path) -> dict:
     isl = islands_row(parse(repo, ARCHI))
     bfe = bfe_row(parse(repo, UDEF))
     hooks = pickle_rows(repo)
+    group_runs_enabled_row(parse(repo, GROUP))
     return dict(seq=seq, prod=prod, custom=custom, bind=bind, same=same, names=names, types=types, tuples=True,
                 fidx=fidx, isl=isl, bfe=bfe, hooks=hooks)
 
